@@ -4,7 +4,7 @@
    string; equal keys = same document), selfonly (placeholder page / id. / unknown), found
    (the citation was extracted as written); matrices eq (==), heq (hash ==), req (Resource ==);
    rt: round trip of corrected_citation(). same_as = index of the member that is the same object. *)
-EXTENDS Integers, Sequences, FiniteSets, Json, IOUtils, TLC
+EXTENDS Integers, Sequences, FiniteSets, Json, IOUtils, TLC, Hits
 Traces == JsonDeserialize(IOEnv.TRACE_FILE)
 NT == Len(Traces)
 VARIABLES tid, bucket
@@ -14,7 +14,9 @@ F(tr) == {i \in DOMAIN tr.rows : tr.rows[i].found}
 Expected(tr, i, j) == \/ i = j
                       \/ (/\ ~tr.rows[i].selfonly /\ ~tr.rows[j].selfonly
                           /\ tr.rows[i].cls = tr.rows[j].cls /\ tr.rows[i].key = tr.rows[j].key)
-Clauses == {"C04.noraise", "C16.iff", "C16.hash", "C16.resource", "C16.equivalence", "C16.roundtrip"}
+ClauseSeq == <<"C04.noraise", "C16.iff", "C16.hash", "C16.resource", "C16.equivalence", "C16.roundtrip">>
+Clauses == {ClauseSeq[ci] : ci \in DOMAIN ClauseSeq}
+ASSUME PrintT(<<"CLAUSES", ToJson(ClauseSeq)>>)
 Holds(cl, t) ==
   LET tr == T(t) IN
   IF tr.raised # "" THEN cl # "C04.noraise"
@@ -29,6 +31,17 @@ Holds(cl, t) ==
 TInit == tid = 0 /\ bucket \in 0..(NB - 1)
 TNext == tid = 0 /\ (\E t \in {x \in 1..NT : x % NB = bucket} : tid' = t) /\ UNCHANGED bucket
 TSpec == TInit /\ [][TNext]_<<tid, bucket>>
-Judge == tid # 0 => \A cl \in Clauses : Holds(cl, tid) \/ PrintT(<<"FAIL", tid, cl>>)
+Exercised(cl, t) ==
+  LET tr == T(t) IN
+  IF cl = "C04.noraise" THEN TRUE
+  ELSE IF tr.raised # "" THEN FALSE
+  ELSE CASE cl \in {"C16.iff", "C16.hash", "C16.resource"} ->      \* both an equal and an unequal pair of distinct members
+              /\ \E i, j \in F(tr) : i # j /\ Expected(tr, i, j)
+              /\ \E i, j \in F(tr) : i # j /\ ~Expected(tr, i, j)
+    [] cl = "C16.equivalence" -> \E i, j, k \in F(tr) : i # j /\ j # k /\ i # k /\ tr.eq[i][j] /\ tr.eq[j][k]
+    [] cl = "C16.roundtrip" -> \E i \in F(tr) : tr.rt[i].checked
+    [] OTHER -> FALSE
+Judge == tid # 0 => (/\ \A cl \in Clauses : Holds(cl, tid) \/ PrintT(<<"FAIL", tid, cl>>)
+   /\ PrintT(<<"HIT", tid, Mask([ci \in DOMAIN ClauseSeq |-> Exercised(ClauseSeq[ci], tid)])>>))
 Done == tid # 0 => PrintT(<<"DONE", tid>>)
 =============================================================================
